@@ -5,6 +5,8 @@ import XmppModel.Lemmas.SendLts
 import XmppModel.Model.SendGuard
 import XmppModel.Lemmas.SendGuard
 import XmppModel.Generated.C05
+import XmppModel.Model.ValueForms
+import XmppModel.Model.Transport
 /-!
 # C05 — each transmit call puts exactly its own element on the wire, whole
 
@@ -762,6 +764,180 @@ call 0 is in the middle of its element (an unlocked look cannot tell "broken" fr
 theorem C05_guard_before_lock_refuses_spuriously :
     let s := SendGuard.run (guardDemo true false) (SendGuard.init String) [0, 0, 0, 1, 0, 0, 0]
     s.pc 0 = .done ∧ s.pc 1 = .refused ∧ ∀ j, j < 2 → s.pc j ≠ .failed := by
+  decide
+
+/-! ### Round D: from the value to the tokens (`internal/marshal`) -/
+
+open ValueForms in
+/-- is `letter` the mark of an encoding method a value with the methods `code` may be encoded by -/
+def admissibleLetter (code letter : String) : Bool :=
+  allCaps.any fun c => c.code == code &&
+    [Source.writeXML, .marshalerToks, .readerToks, .marshalXML, .reflection].any fun s => admissible c s && s.letter == letter
+
+/-- regenerated PROBE fact: `harness facts` hands a value with every subset of the four encoding
+methods (each writing its own mark, all of them the same element with `xml:lang` and an
+attribute in an extension namespace) to `Encode` and to `EncodeElement` of a real session and
+reads the wire: all 32 rows are there, every element arrived with its name and both namespaced
+attributes intact, and it was made by a method the value offers (by reflection only when it
+offers none).  Which of several offered methods is used is left to the code. -/
+theorem C05_gen_value_forms :
+    ∃ rows, Generated.C05.valueProbe = some rows ∧
+      rows.map (fun r => (r.1, r.2.1)) = (["enc", "encel"].flatMap fun e => ValueForms.allCaps.map fun c => (e, c.code)) ∧
+      rows.all (fun r => r.2.2.2 && admissibleLetter r.2.1 r.2.2.1) = true := by
+  refine ⟨_, rfl, by decide, by decide⟩
+
+/-- the order in which the model asks for the methods is an admissible one, for every value -/
+theorem C05_dispatch_admissible (c : ValueForms.Caps) :
+    ValueForms.admissible c (ValueForms.dispatch c) = true := by
+  rcases c with ⟨w, m, r, x⟩
+  cases w <;> cases m <;> cases r <;> cases x <;> rfl
+
+/-- values that make their own tokens have them handed on as they are -/
+theorem C05_own_tokens_unchanged (src : ValueForms.Source) (h : src.printed = false) (ts : List Tok) :
+    ValueForms.handed src ts = ts := by
+  simp [ValueForms.handed, h]
+
+/-- what is left of a token when the namespace of an element name and the namespace
+declarations are put aside -/
+def shape : Tok → Tok
+  | .start n as => .start ⟨"", n.loc⟩ (as.filter fun a => !isNsDecl a)
+  | .stop n => .stop ⟨"", n.loc⟩
+  | t => t
+
+/-- **a printed value (MarshalXML, reflection) arrives whole**: reading its bytes back resolved
+changes nothing but the spelling of namespaces - same tokens in the same order, same local
+names, every attribute that is not a namespace declaration kept with its namespace, name and
+value, same text; for every token list and every namespace context -/
+theorem C05_printed_value_same_shape (st : List String) (ts : List Tok) :
+    (resolve st ts).map shape = ts.map shape := by
+  induction ts generalizing st with
+  | nil => simp [resolve]
+  | cons t ts ih =>
+    cases t with
+    | start n as => simp [resolve, shape, ih, List.filter_filter]
+    | stop n =>
+      cases st with
+      | nil => simp [resolve, shape, ih]
+      | cons s rest => simp [resolve, shape, ih]
+    | chars x => simp [resolve, shape, ih]
+    | comment x => simp [resolve, shape, ih]
+    | procInst a b => simp [resolve, shape, ih]
+    | directive x => simp [resolve, shape, ih]
+
+/-- and no namespace declaration is handed on as if it were an attribute -/
+theorem C05_printed_value_no_declarations (st : List String) (ts : List Tok) (n : Name) (as : List Attr)
+    (h : Tok.start n as ∈ resolve st ts) : ∀ a ∈ as, isNsDecl a = false := by
+  induction ts generalizing st with
+  | nil => simp [resolve] at h
+  | cons t ts ih =>
+    cases t with
+    | start m bs =>
+      simp only [resolve, List.mem_cons] at h
+      rcases h with h | h
+      · injection h with h1 h2
+        intro a ha
+        rw [h2] at ha
+        simpa using (List.mem_filter.mp ha).2
+      · exact ih _ h
+    | stop m =>
+      cases st with
+      | nil => simp only [resolve, List.mem_cons] at h; rcases h with h | h; · cases h
+               · exact ih _ h
+      | cons s rest => simp only [resolve, List.mem_cons] at h; rcases h with h | h; · cases h
+                       · exact ih _ h
+    | chars x => simp only [resolve, List.mem_cons] at h; rcases h with h | h; · cases h
+                 · exact ih _ h
+    | comment x => simp only [resolve, List.mem_cons] at h; rcases h with h | h; · cases h
+                   · exact ih _ h
+    | procInst x y => simp only [resolve, List.mem_cons] at h; rcases h with h | h; · cases h
+                      · exact ih _ h
+    | directive x => simp only [resolve, List.mem_cons] at h; rcases h with h | h; · cases h
+                     · exact ih _ h
+
+/-- non-vacuity + what the other way of reading back does: `<iq xml:lang="en"/>` printed and read
+back RAW carries the prefix where the namespace belongs (the session's encoder would declare
+`xmlns:_xml="xml"`); read back resolved it is the attribute the value has -/
+theorem C05_raw_readback_mangles_prefixed_attr :
+    let lang : Attr := ⟨⟨"http://www.w3.org/XML/1998/namespace", "lang"⟩, "en"⟩
+    ValueForms.rawBackAttrs (fun _ => "_") [lang] = [⟨⟨"xml", "lang"⟩, "en"⟩] ∧
+    ValueForms.handed .marshalXML [.start ⟨"", "iq"⟩ [⟨⟨"", "xmlns"⟩, "jabber:client"⟩, lang], .stop ⟨"", "iq"⟩]
+      = [.start ⟨"jabber:client", "iq"⟩ [lang], .stop ⟨"jabber:client", "iq"⟩] := by
+  decide
+
+/-! ### Round D: the transport below the encoder (`conn.Write`) -/
+
+open Transport in
+/-- `conn.Write` as the code has it (one attempt): what the transport accepted is exactly the
+reported prefix of the buffer, for every script of transport answers and every buffer -/
+theorem C05_conn_write_exact {α : Type} : Exact (writeOnce (α := α)) := by
+  intro s b
+  cases s with
+  | nil => simp [writeOnce]
+  | cons r rest =>
+    simp only [writeOnce]
+    by_cases h : r.n ≤ b.length
+    · rw [Nat.min_eq_left h]
+    · have h' : b.length ≤ r.n := by omega
+      rw [Nat.min_eq_right h', List.take_of_length_le h', List.take_of_length_le (Nat.le_refl _)]
+
+open Transport in
+/-- **whatever the transport does** (any answers: partial writes, temporary errors, timeouts,
+permanent errors, short counts without error), below a layer that is exact per call the wire is
+a PREFIX of what the encoder flushed - no byte twice, none out of order - and when no error was
+reported it is all of it -/
+theorem C05_transport_exact {α : Type} (write : List Resp → List α → Res α) (hw : Exact write)
+    (s : List Resp) (cs : List (List α)) :
+    (∃ rest, (flushChunks write s cs).1 ++ rest = cs.flatten) ∧
+    ((flushChunks write s cs).2 = true → (flushChunks write s cs).1 = cs.flatten) := by
+  induction cs generalizing s with
+  | nil => simp [flushChunks]
+  | cons c cs ih =>
+    simp only [flushChunks]
+    split
+    · refine ⟨⟨c.drop (write s c).2.1 ++ cs.flatten, ?_⟩, by simp⟩
+      rw [hw s c, ← List.append_assoc, List.take_append_drop, List.flatten_cons]
+    · rename_i hc
+      have hlen : c.length ≤ (write s c).2.1 := by
+        simp only [Bool.or_eq_true, decide_eq_true_eq, not_or, Nat.not_lt] at hc
+        exact hc.2
+      have hall : (write s c).1 = c := by rw [hw s c, List.take_of_length_le hlen]
+      obtain ⟨⟨rest, hr⟩, hok⟩ := ih (write s c).2.2.2
+      refine ⟨⟨rest, ?_⟩, fun h => ?_⟩
+      · simp only [hall, List.flatten_cons, List.append_assoc, hr]
+      · simp only [hall, List.flatten_cons, hok h]
+
+open Transport in
+/-- the layer as the code has it -/
+theorem C05_transport_exact_once {α : Type} (s : List Resp) (cs : List (List α)) :
+    (∃ rest, (flushChunks writeOnce s cs).1 ++ rest = cs.flatten) ∧
+    ((flushChunks writeOnce s cs).2 = true → (flushChunks writeOnce s cs).1 = cs.flatten) :=
+  C05_transport_exact writeOnce C05_conn_write_exact s cs
+
+open Transport in
+/-- **the hypothesis is necessary**: a layer that answers a temporary error by submitting the
+WHOLE buffer again puts the accepted prefix on the wire twice and reports success -/
+theorem C05_retry_all_duplicates :
+    flushChunks (writeRetryAll 2) [⟨3, some .temp⟩] [[1, 2, 3, 4, 5, 6, 7, 8]] = ([1, 2, 3, 1, 2, 3, 4, 5, 6, 7, 8], true) ∧
+    ¬ Exact (writeRetryAll (α := Nat) 2) := by
+  refine ⟨by decide, fun h => ?_⟩
+  have := h [⟨3, some .temp⟩] [1, 2, 3, 4, 5, 6, 7, 8]
+  revert this
+  decide
+
+set_option maxRecDepth 100000 in
+open Transport in
+/-- regenerated PROBE fact: `Session.Conn().Write("abcdefgh")` of a real session on a transport
+that is not a net.Conn, for every script of two answers over {0, 3, 8 bytes} x {no error,
+temporary, timeout, permanent} and every script of four answers over {(3, temporary),
+(0, temporary), (8, ok)}: the bytes the transport accepted are exactly the reported prefix -/
+theorem C05_gen_conn_write_exact :
+    ∃ rows, Generated.C05.connWriteProbe = some rows ∧ rows.length = 225 ∧
+      rows.all (fun r => r.2.2.2 == [97, 98, 99, 100, 101, 102, 103, 104].take r.2.1) = true := by
+  refine ⟨_, rfl, by decide, by decide⟩
+
+/-- non-vacuity of `C05_transport_exact`: a write cut short with a temporary error; the wire is
+the accepted prefix, the failure is reported -/
+example : Transport.flushChunks Transport.writeOnce [⟨3, some .temp⟩] [[1, 2, 3, 4, 5, 6, 7, 8], [9]] = ([1, 2, 3], false) := by
   decide
 
 end XmppModel.Props.C05
